@@ -528,3 +528,177 @@ def _coef(p, v):
         if p[3] == v:
             return p[2]
     return None
+
+
+# ------------------------------------------------------------------ R-ML-GIVEUP
+def r_ml_giveup(ctx, prog):
+    """ML decoding may give up before solving only when the simplified system is under-determined: an edge of the ML pipeline that
+    leads to non-OK returns only and whose condition compares the number of remaining rows with the number of remaining columns
+    must be exactly "fewer rows than columns" (a square system with an invertible matrix is uniquely solvable)."""
+    from .ir import out_edges, cond_atoms, NEG, SWAP
+    from .rules_param import _only_nonok
+    R = 'R-ML-GIVEUP'
+    ctx.rule(R, 'the ML pipeline gives up on dimension grounds only when remaining rows < remaining columns (strictly)', floor=1)
+    names = [ML, 'of_linear_binary_code_create_simplified_linear_system']
+    n = 0
+    for nm in names:
+        f = prog.need_fn(nm, R)
+        tt = Terms(f, forward=True)
+        for b in f.blocks:
+            for s2, lab in out_edges(b):
+                if lab is None or lab[0] != 'br':
+                    continue
+                if not _only_nonok(f, s2, b) or _only_nonok(f, b, None):
+                    continue
+                for a in cond_atoms(tt, lab[1], lab[2]):
+                    if a[0] != 'cmp':
+                        continue
+                    x, y = _dim(a[2]), _dim(a[3])
+                    if x is None or y is None or x == y:
+                        continue
+                    pred = a[1]
+                    if x == 'remain_cols':
+                        pred = SWAP[pred]
+                    n += 1
+                    ctx.instance(R, pred in ('ult', 'slt'), b.term(), 'giveup:%s' % nm,
+                                 '%s gives up when remaining rows %s remaining columns; only "rows < columns" makes the system '
+                                 'unsolvable -- a square (or over-determined) system of full column rank has a unique solution' % (nm, pred))
+    if n == 0:
+        ctx.ok(R, prog.fn(names[1]), 'giveup:none', 'no dimension-based give-up (the solver decides)')
+
+
+def _dim(t):
+    while isinstance(t, tuple) and t[0] in ('trunc',):
+        t = t[2]
+    if isinstance(t, tuple) and t[0] in ('load', 'load@') and t[1][0] == 'field' and t[1][2] in ('remain_rows', 'remain_cols'):
+        return t[1][2]
+    return None
+
+
+# ------------------------------------------------------------------ R-INIT-ORDER
+def field_mods(prog):
+    """fn key -> {param index: set(byte offsets of members stored directly in the object the parameter points to)}, transitively
+    through callees that receive the same pointer (casts between the control-block views are transparent; R-LAYOUT makes the
+    offsets agree)."""
+    c = prog.__dict__.get('_fmods')
+    if c is not None:
+        return c
+
+    def key(f):
+        return (f.unit.name, f.name) if f.internal else f.name
+    summ = dict((key(f), {}) for f in prog.all_functions)
+    tts = {}
+    changed = True
+    while changed:
+        changed = False
+        for f in prog.all_functions:
+            tt = tts.get(key(f))
+            if tt is None:
+                tt = tts[key(f)] = Terms(f)
+            cur = summ[key(f)]
+            for i in f.all_insts():
+                if i.op == 'store':
+                    a = tt.term(i.ops[1])
+                    if a[0] == 'field' and a[1][0] == 'param':
+                        s = cur.setdefault(a[1][1], set())
+                        if a[3] not in s:
+                            s.add(a[3])
+                            changed = True
+                elif i.op == 'call' and i.callee:
+                    g = prog.callee_fn(i)
+                    if g is None:
+                        continue
+                    for j, offs in summ[key(g)].items():
+                        if j < len(i.args):
+                            t = tt.term(i.args[j])
+                            if t[0] == 'param':
+                                s = cur.setdefault(t[1], set())
+                                if not offs <= s:
+                                    s |= offs
+                                    changed = True
+    prog.__dict__['_fmods'] = (summ, key)
+    return summ, key
+
+
+def r_init_order(ctx, prog, codecs):
+    """In set_fec_parameters a constant initialisation of a control-block member must not come after a call that may already have
+    updated that member (the LDPC decoder pre-loads the known-null last repair symbol from inside set_fec_parameters: counters
+    zeroed after that point lose the update)."""
+    R = 'R-INIT-ORDER'
+    SETP = {1: 'of_rs_set_fec_parameters', 2: 'of_rs_2_m_set_fec_parameters', 3: 'of_ldpc_staircase_set_fec_parameters',
+            5: 'of_2d_parity_set_fec_parameters'}
+    ctx.rule(R, 'in every set_fec_parameters no member is (re)initialised with a constant after a call that may have updated it', floor=1)
+    summ, key = field_mods(prog)
+    n = 0
+    for cid, name in sorted(SETP.items()):
+        if cid not in codecs:
+            continue
+        f = prog.need_fn(name, R)
+        tt = Terms(f)
+        calls = []
+        for c in f.calls():
+            g = prog.callee_fn(c)
+            if g is None:
+                continue
+            for j, offs in summ[key(g)].items():
+                if j < len(c.args) and tt.term(c.args[j]) == ('param', 0):
+                    calls.append((c, offs))
+        for s in f.all_insts():
+            if s.op != 'store':
+                continue
+            a = tt.term(s.ops[1])
+            if not (a[0] == 'field' and a[1] == ('param', 0)) or const_of(s.ops[0]) is None:
+                continue
+            n += 1
+            bad = None
+            for c, offs in calls:
+                if a[3] not in offs:
+                    continue
+                before = (c.block.id == s.block.id and c.block.insts.index(c) < s.block.insts.index(s)) or \
+                    (c.block.id != s.block.id and s.block.id in f.reachable(c.block))
+                if before:
+                    bad = c
+            ctx.instance(R, bad is None, s, 'init:%s:%s' % (name, a[2]),
+                         '%s sets member %s to a constant after calling %s, which may already have updated it: the update is lost' %
+                         (name, a[2], bad.callee if bad else ''))
+    ctx.need(n >= 1, R, 'no constant initialisation found in any set_fec_parameters')
+
+
+# ------------------------------------------------------------------ R-2D-DIVISIBLE
+def r_2d_divisible(ctx, prog):
+    """of_create_2D_pchk_matrix accepts (k, n-k) only for a factorisation k = d*l, d + l = n-k, found by testing that the quotient
+    k/d has no fractional part.  The test is vacuous -- every d is "a divisor" -- when its operand has already been truncated to
+    an integer; then non-factorable (k, n-k) are accepted and the matrix built covers fewer than k source symbols."""
+    R = 'R-2D-DIVISIBLE'
+    ctx.rule(R, 'the "quotient has no fractional part" test that selects the 2D factorisation is applied to the untruncated quotient', floor=1)
+    f = prog.need_fn('of_create_2D_pchk_matrix', R)
+    tt = Terms(f)
+    n = 0
+
+    def strip(t):
+        while isinstance(t, tuple) and t[0] == 'conv' and t[1] in ('fpext', 'fptrunc'):
+            t = t[2]
+        return t
+
+    def integral(t):
+        t = strip(t)
+        return isinstance(t, tuple) and t[0] == 'conv' and t[1] in ('uitofp', 'sitofp')
+    for i in f.all_insts():
+        if i.op != 'fcmp':
+            continue
+        t = tt.term(_V(i))
+        if t[0] != 'cmp' or t[3] != ('fconst', 0) and t[3] != ('fconst', 0.0):
+            continue
+        x = t[2]
+        if not (isinstance(x, tuple) and x[0] == 'bin' and x[1] == 'fsub'):
+            continue
+        a, b = x[2], x[3]
+        isfloor = isinstance(b, tuple) and b[0] == 'call' and 'floor' in b[1]
+        if not isfloor:
+            continue
+        n += 1
+        ctx.instance(R, not integral(a), i, '2d:fraction-test',
+                     'the fractional-part test of the quotient (n-k taken out of n)/d is applied to a value already converted to an '
+                     'integer: it always succeeds, so parameter pairs that are not d*l / d+l factorable are accepted')
+    if n == 0:
+        ctx.ok(R, f, '2d:fraction-test:none', 'no floating-point fractional-part test (factorisation decided otherwise)')
